@@ -115,6 +115,13 @@ ArgsLoop:
 				if exact && knownPath != pattern {
 					continue
 				}
+				// In the attributes file of a subdirectory "/x.bin"
+				// is the file of that name in this directory and
+				// "x.bin" the files of that name anywhere below it,
+				// although both are known as "<dir>/x.bin".
+				if relpath != "." && known.AnyDepth != !strings.Contains(strings.TrimSuffix(pattern, "/"), "/") {
+					continue
+				}
 				// The same text read from the attributes file of
 				// another directory is another pattern: "sub/*.bin"
 				// up there matches the files of sub only, "*.bin"
